@@ -33,6 +33,8 @@ pub enum Msg {
     Refs(&'static str),
     Chg(&'static str, &'static str),
     Save(&'static str, &'static str),
+    /// a code-action request (its answer carries ids of a process-global counter: only counted, not compared)
+    Act(&'static str),
     /// a didChange without any content change: legal, carries no edit; its handler panics while
     /// the loop holds the server for writing (the panic is contained) - nothing sent after it may
     /// be lost because of it
@@ -49,6 +51,7 @@ pub const ALPHABET: &[(&str, Msg)] = &[
     ("S1c", Msg::Save("1", "# one C\n\n[x](2)\n")),
     ("C3n", Msg::Chg("3", "# three\n\n[two](2)\n")),
     ("E1", Msg::ChgEmpty("1")),
+    ("A1", Msg::Act("1")),
 ];
 
 fn initial_lib() -> HashMap<String, String> {
@@ -66,7 +69,7 @@ pub fn parse_script(case: &str) -> Vec<(String, Msg)> {
 }
 
 fn is_request(m: &Msg) -> bool {
-    matches!(m, Msg::Fmt(_) | Msg::Refs(_))
+    matches!(m, Msg::Fmt(_) | Msg::Refs(_) | Msg::Act(_))
 }
 
 enum Ev {
@@ -152,6 +155,17 @@ fn build_message(m: &Msg, req_id: i32, pos: usize) -> Message {
     match m {
         Msg::Fmt(k) => fmt_request(req_id, k),
         Msg::Refs(k) => refs_request(req_id, k),
+        Msg::Act(k) => Message::Request(Request::new(
+            req_id.into(),
+            "textDocument/codeAction".into(),
+            CodeActionParams {
+                text_document: TextDocumentIdentifier { uri: uri(k) },
+                range: Range::new(Position::new(0, 0), Position::new(0, 0)),
+                context: Default::default(),
+                work_done_progress_params: Default::default(),
+                partial_result_params: Default::default(),
+            },
+        )),
         Msg::Chg(k, t) => Message::Notification(Notification::new(
             "textDocument/didChange".into(),
             DidChangeTextDocumentParams {
@@ -238,7 +252,7 @@ pub fn run_schedule(script: &[(String, Msg)], prefix: &[Choice]) -> Exec {
     let mut queued: Vec<(String, Msg, Option<i32>)> = vec![];
     let mut last_choice: Option<Choice> = None;
 
-    loop {
+    'run: loop {
         let holders = workers.iter().filter(|w| !w.done && w.phase == 1).count();
         let mut enabled = vec![];
         if next_msg < script.len() && loop_pending.is_none() {
@@ -318,11 +332,7 @@ pub fn run_schedule(script: &[(String, Msg)], prefix: &[Choice]) -> Exec {
                 if is_request(&m) {
                     req_id += 1;
                     x.request_pos.insert(req_id, pos);
-                    let msg = match &m {
-                        Msg::Fmt(k) => fmt_request(req_id, k),
-                        Msg::Refs(k) => refs_request(req_id, k),
-                        _ => unreachable!(),
-                    };
+                    let msg = build_message(&m, req_id, pos);
                     client.sender.send(msg).unwrap();
                     let (mut got_l, mut got_s) = (false, false);
                     let mut pend: Option<(String, u8, Sender<()>)> = None;
@@ -394,7 +404,16 @@ pub fn run_schedule(script: &[(String, Msg)], prefix: &[Choice]) -> Exec {
                 } else {
                     // the worker runs to its next pause point (or dies: then its thread ends)
                     let mut died = false;
+                    let released_at = std::time::Instant::now();
                     loop {
+                        // a released worker that neither reaches its next pause point nor ends is stuck
+                        // (e.g. it asks for the server a second time while the loop waits to write):
+                        // reported as a deadlock, the execution is abandoned
+                        if released_at.elapsed() > Duration::from_secs(3) {
+                            x.log.push(format!("W{}: no progress for 3 s after release", i));
+                            x.deadlock = true;
+                            break 'run;
+                        }
                         match rx.recv_timeout(Duration::from_millis(50)) {
                             Ok(Ev::Paused(id, ph, r)) if ids.get(&id) == Some(&i) => {
                                 workers[i].phase = ph;
@@ -599,7 +618,7 @@ impl Expected {
 fn check_exec(script: &[(String, Msg)], exp: &Expected, x: &Exec) -> Vec<(String, String)> {
     let mut bad: Vec<(String, String)> = vec![];
     if x.deadlock {
-        bad.push(("deadlock".into(), "no actor enabled although work remains".into()));
+        bad.push(("deadlock".into(), format!("no actor can make progress although work remains ({})", x.log.last().cloned().unwrap_or_default())));
         return bad;
     }
     for n in &x.loop_panics {
@@ -619,6 +638,9 @@ fn check_exec(script: &[(String, Msg)], exp: &Expected, x: &Exec) -> Vec<(String
         let rs = x.responses.get(id).cloned().unwrap_or_default();
         if rs.len() != 1 {
             bad.push(("responses".into(), format!("request #{} ({}) got {} responses", id, script[*pos].0, rs.len())));
+            continue;
+        }
+        if let Msg::Act(_) = script[*pos].1 {
             continue;
         }
         // notifications before the request in the script
@@ -654,7 +676,7 @@ impl Engine for C11 {
         )
     }
     fn bound(&self, tier: Tier) -> String {
-        format!("scripts of <= {} messages plus all bursts (request, 3 notifications), <= 3 concurrent workers, all interleavings incl. client sends that pile up behind a blocked loop (no preemption bound)", max_len(tier))
+        format!("scripts of <= {} messages plus all bursts (formatting or code-action request, 3 notifications), <= 3 concurrent workers, all interleavings incl. client sends that pile up behind a blocked loop (no preemption bound)", max_len(tier))
     }
     fn assumptions(&self) -> Vec<String> {
         vec![
@@ -672,7 +694,7 @@ impl Engine for C11 {
         // inbox while the loop waits for the worker); part of both tiers
         let reqs: Vec<&str> = ALPHABET.iter().filter(|m| is_request(&m.1)).map(|m| m.0).collect();
         let nots: Vec<&str> = ALPHABET.iter().filter(|m| !is_request(&m.1)).map(|m| m.0).collect();
-        for r in &reqs[..2] {
+        for r in reqs.iter().filter(|r| **r != "R2") {
             for a in &nots {
                 for b in &nots {
                     for c in &nots {
@@ -761,11 +783,17 @@ impl Engine for C11 {
                 }
             }
             let bad = check_exec(&script, &exp, &x);
+            let deadlocked = x.deadlock;
             if !bad.is_empty() {
                 violating += 1;
                 if shortest.as_ref().map(|s| s.0.len() > x.choices.len()).unwrap_or(true) {
                     shortest = Some((x.choices.clone(), bad, x.log.clone()));
                 }
+            }
+            // a deadlocked execution leaves its threads behind and costs seconds: the first one of a
+            // script is reported, the rest of the script's schedules are not explored
+            if deadlocked {
+                break;
             }
             if schedules > 2_000_000 {
                 break;
